@@ -708,6 +708,17 @@ def interp_2d(chk, drv):
             s2 = gen_space(rng, per=per2, kind=rng.choice(k), maxcells=7, allow_min=False)
             if s1.cu != s2.cu:
                 continue
+        if it % 8 in (5, 6):
+            # the two directions agree in degree, number of cells and boundary condition but NOT in their break points (a graded grid
+            # in one direction, an equidistant or otherwise graded one in the other): each direction has its own collocation matrix
+            pdeg = rng.randint(1, 5)
+            per_ = it % 8 == 6
+            ncell = rng.randint(max(pdeg + 1, 3), 7)
+            wA = np.array([1.0 + 0.7 * j for j in range(ncell)])
+            wB = np.ones(ncell) if rng.random() < 0.5 else wA[::-1] * np.array([1.0 + 0.2 * (j % 2) for j in range(ncell)])
+            mk = lambda w_: Sp(pdeg, per_, 'random', np.concatenate([[0.0], np.cumsum(w_)]) / w_.sum())   # noqa: E731
+            s1, s2 = (mk(wA), mk(wB)) if rng.random() < 0.5 else (mk(wB), mk(wA))
+            per1 = per2 = per_
         dk = rng.choice(['normal', 'normal', 'scaled', 'big'])
         U = gen_data(rng, s1.nb * s2.nb, dk).reshape(s1.nb, s2.nb)
         case = {'space1': s1.desc(), 'space2': s2.desc(), 'data': dk, 'u': U.tolist()}
